@@ -298,6 +298,120 @@ impl Prop for Converge {
     }
 }
 
+/// Replicas with automatic format clean-up (`cleanup_formatting`, on by default in
+/// `Options::with_client_id` / `Doc::new`).  Such a replica deletes format marks while it applies
+/// remote updates, so it is not passive and may differ from others until its deletions have
+/// travelled too.  What must hold: (a) the clean-up never changes what the replica itself shows —
+/// after every applied update it shows what a clean-up-free twin, rebuilt from its full state and
+/// given the same update, shows; (b) once everybody has everything — including the deletions made
+/// by clean-up, exchanged as full states — all replicas are equal.
+pub struct CleanupPart;
+
+#[derive(Clone, Debug, Serialize, Deserialize)]
+pub struct CleanupCase {
+    pub history: History,
+    /// which replicas run WITHOUT clean-up
+    pub off: Vec<bool>,
+    pub sched: Sched,
+}
+
+impl Prop for CleanupPart {
+    type Case = CleanupCase;
+    fn name(&self) -> &'static str {
+        "cleanup"
+    }
+    fn cases(&self, tier: Tier) -> u64 {
+        tier.pick(60_000, 2_000_000)
+    }
+    fn strategy(&self, tier: Tier) -> BoxedStrategy<CleanupCase> {
+        let shape = HistoryShape::default_for(tier);
+        // formatted text is what clean-up is about
+        let mut p = Profile::all();
+        p.format *= 3;
+        p.text *= 2;
+        p.subdocs = false;
+        (history_strategy(p, shape, true), prop::collection::vec(prop::bool::weighted(0.3), 4), sched_strategy())
+            .prop_map(|(mut history, off, sched)| {
+                for (c, o) in history.cfgs.iter_mut().zip(off.iter()) {
+                    c.cleanup = !*o;
+                }
+                CleanupCase { history, off, sched }
+            })
+            .boxed()
+    }
+
+    fn check(&self, case: &CleanupCase, st: &mut CaseStats) -> Result<(), Fail> {
+        let mut w = World::new(&case.history.cfgs);
+        for r in w.reps.iter() {
+            r.twin_check.set(true);
+        }
+        let twin = |w: &World, when: &str| -> Result<(), Fail> {
+            for (i, r) in w.reps.iter().enumerate() {
+                if let Some(d) = r.twin_fail.borrow().as_ref() {
+                    fail!("c01/cleanup/changed-content", "{}: replica {} (automatic format clean-up) shows something else than a clean-up-free twin with the same state that applied the same update: {}", when, i, d);
+                }
+            }
+            Ok(())
+        };
+        let mut formatted = false;
+        for (i, s) in case.history.steps.iter().enumerate() {
+            if let Err(e) = w.step(s) {
+                fail!("c01/transport/apply-failed", "history step {} {:?}: {}", i, s, e);
+            }
+            twin(&w, &format!("after step {} {:?}", i, s))?;
+        }
+        if w.updates.iter().any(|u| u.ops.iter().any(|r| matches!(r.cop, crate::interp::COp::TextFormat { .. } | crate::interp::COp::TextInsert { attrs: Some(_), .. } | crate::interp::COp::TextEmbed { attrs: Some(_), .. } | crate::interp::COp::TextDelta { .. }))) {
+            formatted = true;
+            st.hit("formatted_history");
+        }
+        // everybody gets every registered update under the generated schedule
+        for r in 0..w.reps.len() {
+            let miss = w.missing(r);
+            for d in plan(&case.sched, &miss).iter() {
+                exec_delivery(&w, &w.reps[r], d)?;
+                twin(&w, &format!("final flush of replica {}, delivery {:?}", r, d.idxs))?;
+            }
+        }
+        // closure: full states until nobody changes any more
+        let n = w.reps.len();
+        let mut rounds = 0;
+        loop {
+            let before: Vec<Node> = w.reps.iter().map(|r| r.dump()).collect();
+            let svs: Vec<Vec<(u64, u32)>> = w.reps.iter().map(|r| sv_to_vec(&r.sv())).collect();
+            for from in 0..n {
+                let state = { use yrs::{ReadTxn, Transact}; w.reps[from].doc.transact().encode_state_as_update_v1(&yrs::StateVector::default()) };
+                for to in 0..n {
+                    if to != from {
+                        if let Err(e) = w.reps[to].apply(&state, false) {
+                            fail!("c01/transport/apply-failed", "closure round {}: {} -> {}: {}", rounds, from, to, e);
+                        }
+                        twin(&w, &format!("closure round {}: full state of {} applied to {}", rounds, from, to))?;
+                    }
+                }
+            }
+            rounds += 1;
+            let after: Vec<Node> = w.reps.iter().map(|r| r.dump()).collect();
+            let svs2: Vec<Vec<(u64, u32)>> = w.reps.iter().map(|r| sv_to_vec(&r.sv())).collect();
+            if before == after && svs == svs2 {
+                break;
+            }
+            ensure!(rounds <= 6, "c01/cleanup/closure-does-not-settle", "replicas still change after {} rounds of full-state exchange", rounds);
+        }
+        let d0 = w.reps[0].dump();
+        for r in 1..n {
+            let d = w.reps[r].dump();
+            if d != d0 {
+                fail!("c01/cleanup/closure-diverges", "after {} rounds of full-state exchange replica {} differs from replica 0: {}", rounds, r, first_diff(&d, &d0).unwrap_or_default());
+            }
+            ensure!(!w.reps[r].has_missing(), "c01/stuck-pending", "replica {} reports missing updates after the closure", r);
+        }
+        if formatted && w.reps.iter().any(|r| r.cfg.cleanup) && w.updates.len() >= 3 {
+            st.nt();
+        }
+        Ok(())
+    }
+}
+
 pub fn property() -> Property {
     Property {
         id: "C01",
@@ -307,6 +421,6 @@ pub fn property() -> Property {
             "all replicas of the strict clause run with cleanup_formatting=false (a replica with automatic clean-up makes changes of its own, see DESIGN section 7)".into(),
             "equality is the canonical dump through the public read API".into(),
         ],
-        parts: vec![Box::new(Part(Converge))],
+        parts: vec![Box::new(Part(Converge)), Box::new(Part(CleanupPart))],
     }
 }
